@@ -21,8 +21,8 @@ import (
 	"time"
 
 	"github.com/synnaxlabs/x/confluence"
-	"github.com/synnaxlabs/x/errors"
 	xcontrol "github.com/synnaxlabs/x/control"
+	"github.com/synnaxlabs/x/errors"
 	"github.com/synnaxlabs/x/signal"
 	"github.com/synnaxlabs/x/telem"
 	"pgregory.net/rapid"
@@ -37,7 +37,7 @@ type c20Writer struct {
 	Start  int64     `json:"start"`
 	Mode   int       `json:"mode"` // 1 persist+stream, 2 persist only, 3 stream only
 	Auth   int       `json:"auth"`
-	Frames [][]int64 `json:"frames"` // timestamps per write
+	Frames [][]int64 `json:"frames"`            // timestamps per write
 	PaceNS int64     `json:"pace_ns,omitempty"` // virtual time slept after each write (0 = back to back)
 	// NoAuto: auto-commit off; the writer commits once, after its last write
 	NoAuto bool `json:"no_auto,omitempty"`
@@ -87,15 +87,15 @@ type c20Streamer struct {
 }
 
 type c20Case struct {
-	Schema    vSchema       `json:"schema"`
-	Writers   []c20Writer   `json:"writers"`
-	Streamers []c20Streamer `json:"streamers"`
-	Virtual   []uint32      `json:"virtual,omitempty"` // keys of virtual channels
-	VWriters  []c20VWriter  `json:"vwriters,omitempty"`
+	Schema      vSchema         `json:"schema"`
+	Writers     []c20Writer     `json:"writers"`
+	Streamers   []c20Streamer   `json:"streamers"`
+	Virtual     []uint32        `json:"virtual,omitempty"` // keys of virtual channels
+	VWriters    []c20VWriter    `json:"vwriters,omitempty"`
 	Interlopers []c20Interloper `json:"interlopers,omitempty"`
-	CloseDB   bool          `json:"close_db,omitempty"`
-	Sched     sim.Config    `json:"sched"`
-	Seed      uint64        `json:"seed"`
+	CloseDB     bool            `json:"close_db,omitempty"`
+	Sched       sim.Config      `json:"sched"`
+	Seed        uint64          `json:"seed"`
 }
 
 func genC20(t *rapid.T) c20Case {
@@ -269,11 +269,11 @@ type c20State struct {
 	commits  map[int]c20Commit
 	probeErr []string
 	probeOK  int
-	ctl    []c20Ctl
-	mu     sync.Mutex
-	seq    int64
-	writes []*c20Write
-	recvs  []*c20Recv
+	ctl      []c20Ctl
+	mu       sync.Mutex
+	seq      int64
+	writes   []*c20Write
+	recvs    []*c20Recv
 	// subscription history per streamer: (stamp at send, keys)
 	subs   map[int][]c20Sub
 	closed map[int]int64
